@@ -133,13 +133,17 @@ let rec show_attr a =
       (String.concat "," (List.map (fun n -> string_of_int (int_of_nat n)) exp))
 and show_list l = String.concat "" (List.map (fun k -> " " ^ show_attr k) l)
 
-let cmd_parse file fuel =
+let cmd_parse ?(brief=false) file fuel =
   let tb = read_tables file in
+  let brief0 = brief in
   iter_lines (fun line ->
     let parses = String.split_on_char ';' line in
     let outs = List.map (fun spec ->
       let fail = ref None and types = ref [] in
+      let brief = brief0 || List.mem "BRIEF" (words spec) in
+      let show_attr a = if brief then "" else show_attr a and show_list l = if brief then "" else show_list l in
       List.iter (fun w ->
+        if w = "BRIEF" then () else
         if w.[0] = 'F' then fail := Some (nat_of_int (int_of_string (String.sub w 1 (String.length w - 1))))
         else if w <> "NEW" then types := int_of_string w :: !types) (words spec);
       let input = List.mapi (fun i t -> { ttype = nat_of_int t; tid = nat_of_int i }) (List.rev !types) in
@@ -466,6 +470,7 @@ let () =
   | _ :: "resolve" :: _ -> cmd_resolve ()
   | _ :: "litconv" :: _ -> cmd_litconv ()
   | _ :: "md" :: _ -> cmd_md ()
+  | _ :: "parse" :: file :: fuel :: "brief" :: _ -> cmd_parse ~brief:true file (int_of_string fuel)
   | _ :: "parse" :: file :: fuel :: _ -> cmd_parse file (int_of_string fuel)
   | _ :: "ranges" :: args -> cmd_ranges args
   | _ :: "lex" :: file :: _ -> cmd_lex file
